@@ -52,6 +52,8 @@ Kind(o) == o[1]
 Num(o)  == o[2]
 Rank(o) == (CASE Kind(o) = "c" -> 0 [] Kind(o) = "g" -> 1 [] Kind(o) = "t" -> 2 [] OTHER -> 3) * 1000 + Num(o)
 Least(S) == CHOOSE o \in S : \A p \in S : Rank(o) <= Rank(p)
+RECURSIVE SetToSeqLeast(_)
+SetToSeqLeast(S) == IF S = {} THEN <<>> ELSE <<Least(S)>> \o SetToSeqLeast(S \ {Least(S)})
 
 (* A universe U is a record                                                *)
 (*   par : sequence (per commit) of sets of parent commit numbers           *)
@@ -284,29 +286,32 @@ VARIABLES
     rstore,    \* receiver's object store
     cpc,       \* client: "head" | "tail" | "end" | "failed"
     heads, wp, inVain, gotAck, mayRead,
-    c2s, s2c,  \* FIFO channels
-    spc,       \* server: "wants" | "haves" | "mof" | "pack" | "end" | "refused"
+    s2c,       \* FIFO channel server -> client
+    spc,       \* server: "wants" | "haves" | "mof" | "end" | "refused"
     st,        \* server negotiation state [common, found, haves]
     tagged, todo, shaDone, sent, remoteHas, bases,
     outcome    \* "" | "ok" | "refused" | "client_error" | "unresolved"
 
-vars == <<cs, rstore, cpc, heads, wp, inVain, gotAck, mayRead, c2s, s2c, spc, st,
+vars == <<cs, rstore, cpc, heads, wp, inVain, gotAck, mayRead, s2c, spc, st,
           tagged, todo, shaDone, sent, remoteHas, bases, outcome>>
 
-U_       == cs.U
-SRefs    == SenderRefs(cs.U, cs.sh)
-SStore   == SenderStore(cs.U, cs.sh, cs.full)
-RStore0  == Closure(cs.U, ReceiverTips(cs.rh, cs.rt))
+U_       == [par |-> cs.par, tr |-> cs.tr, ent |-> Pool, lnk |-> PoolLink, tg |-> cs.tg]
+SRefs    == cs.srefs
+SStore   == cs.sstore
+RStore0  == cs.r0
 
 Init ==
     /\ \E u \in Universes, sh \in (SUBSET (1..NC)) \ {{}}, full \in SFull, rh \in SUBSET (1..NC),
           m \in Modes, it \in IncTag, th \in Thin :
          \E rt \in SUBSET (1..Len(u.tg)), w \in WantSets(u, sh, full) :
-            cs = [U |-> u, sh |-> sh, full |-> full, rh |-> rh, rt |-> rt, wants |-> w,
-                  mode |-> m, inctag |-> it, thin |-> th]
+            cs = [par |-> u.par, tr |-> u.tr, tg |-> u.tg, sh |-> sh, full |-> full, rh |-> rh, rt |-> rt, wants |-> w,
+                  mode |-> m, inctag |-> it, thin |-> th,
+                  \* derived once per case (constant during the behaviour)
+                  srefs |-> SenderRefs(u, sh), sstore |-> SenderStore(u, sh, full),
+                  r0 |-> Closure(u, ReceiverTips(rh, rt))]
     /\ rstore = RStore0
-    /\ cpc = "head" /\ heads = cs.rh /\ wp = WalkerInit(Len(cs.U.par)) /\ inVain = 0 /\ gotAck = FALSE /\ mayRead = FALSE
-    /\ c2s = <<>> /\ s2c = <<>>
+    /\ cpc = "head" /\ heads = cs.rh /\ wp = WalkerInit(Len(cs.par)) /\ inVain = 0 /\ gotAck = FALSE /\ mayRead = FALSE
+    /\ s2c = <<>>
     /\ spc = "wants" /\ st = [common |-> <<>>, found |-> FALSE, haves |-> <<>>]
     /\ tagged = <<>> /\ todo = {} /\ shaDone = {} /\ sent = {} /\ remoteHas = {} /\ bases = {}
     /\ outcome = ""
@@ -314,6 +319,11 @@ Init ==
 cvars == <<heads, wp, inVain, gotAck, mayRead, cpc>>
 mvars == <<tagged, todo, shaDone, sent, remoteHas, bases>>
 
+(* Reduction used below.  The server's reaction to a have depends only on the sequence of haves  *)
+(* it has read, never on timing, and the channels are FIFO; the client reads at most one packet  *)
+(* after each have and only if one is there (can_read()).  So "the server has not answered yet"  *)
+(* is indistinguishable from "the client did not look" (CNoRead), and the server's step can be   *)
+(* taken together with the client's write without losing any behaviour of either side.           *)
 ---------------------------------------------------------------------------
 (* server: determine_wants -- want validation against the advertised values *)
 SWants ==
@@ -321,17 +331,19 @@ SWants ==
     /\ IF cs.wants \subseteq SRefs \/ Bug = "NoWantCheck"
        THEN spc' = "haves" /\ UNCHANGED <<outcome, cpc>>
        ELSE spc' = "refused" /\ outcome' = "refused" /\ cpc' = "failed"    \* GitProtocolError, connection closed
-    /\ UNCHANGED <<cs, rstore, heads, wp, inVain, gotAck, mayRead, c2s, s2c, st, mvars>>
+    /\ UNCHANGED <<cs, rstore, heads, wp, inVain, gotAck, mayRead, s2c, st, mvars>>
 
-(* client: _handle_upload_pack_head *)
-CSendHave ==      \* have = next(graph_walker); write "have"; in_vain += 1
-    /\ ~AtomicNeg /\ cpc = "head" /\ ~mayRead /\ spc # "wants"
+(* client: _handle_upload_pack_head: have = next(graph_walker); write "have"; in_vain += 1;      *)
+(* server: find_common_revisions reads it (next), acks it if the object is in its store          *)
+Have ==
+    /\ ~AtomicNeg /\ cpc = "head" /\ ~mayRead /\ spc = "haves"
     /\ \E h \in heads :
-         LET n == WalkerNext(U_, heads, wp, h) IN
+         LET n == WalkerNext(U_, heads, wp, h)
+             r == SrvHave(U_, SStore, cs.wants, cs.mode, st, C(h)) IN
          /\ heads' = n.heads /\ wp' = n.wp
-         /\ c2s' = Append(c2s, <<"have", C(h)>>)
+         /\ st' = r.st /\ s2c' = s2c \o r.out
     /\ inVain' = inVain + 1 /\ mayRead' = TRUE
-    /\ UNCHANGED <<cs, rstore, gotAck, cpc, s2c, spc, st, mvars, outcome>>
+    /\ UNCHANGED <<cs, rstore, gotAck, cpc, spc, mvars, outcome>>
 
 CRead ==          \* can_read() was true: read one pkt
     /\ cpc = "head" /\ mayRead /\ s2c # <<>>
@@ -346,63 +358,55 @@ CRead ==          \* can_read() was true: read one pkt
                       /\ UNCHANGED <<cpc, outcome>>
             ELSE UNCHANGED <<heads, wp, inVain, gotAck, cpc, outcome>>
     /\ mayRead' = FALSE
-    /\ UNCHANGED <<cs, rstore, c2s, spc, st, mvars>>
+    /\ UNCHANGED <<cs, rstore, spc, st, mvars>>
 
 CNoRead ==        \* can_read() was false
     /\ cpc = "head" /\ mayRead
     /\ mayRead' = FALSE
-    /\ UNCHANGED <<cs, rstore, heads, wp, inVain, gotAck, cpc, c2s, s2c, spc, st, mvars, outcome>>
+    /\ UNCHANGED <<cs, rstore, heads, wp, inVain, gotAck, cpc, s2c, spc, st, mvars, outcome>>
 
-CDone ==          \* the walker is exhausted or the in_vain cut-off fired: write "done"
-    /\ ~AtomicNeg /\ cpc = "head" /\ ~mayRead /\ spc # "wants"
+MofStart(hs) ==
+    \E tg \in (IF cs.inctag THEN TaggedChoices(U_, TagsOf(U_)) ELSE {<<>>}) :
+         LET i == MofInit(U_, SStore, hs, cs.wants) IN
+         /\ tagged' = tg
+         \* negative control: every advertised tag is added, whether or not its target is sent
+         /\ todo' = IF Bug = "TaggedAny" /\ cs.inctag
+                    THEN i.todo \cup {<<g, TRUE>> : g \in TagsOf(U_)} ELSE i.todo
+         /\ shaDone' = i.remoteHas /\ remoteHas' = i.remoteHas /\ sent' = {}
+
+(* the walker is exhausted or the in_vain cut-off fired: the client writes "done", the server's  *)
+(* find_common_revisions returns and MissingObjectFinder is set up                               *)
+Done ==
+    /\ ~AtomicNeg /\ cpc = "head" /\ ~mayRead /\ spc = "haves"
     /\ heads = {} \/ (inVain >= MaxInVain /\ gotAck)
-    /\ c2s' = Append(c2s, <<"done">>)
-    /\ cpc' = "tail"
-    /\ UNCHANGED <<cs, rstore, heads, wp, inVain, gotAck, mayRead, s2c, spc, st, mvars, outcome>>
-
-(* server: find_common_revisions over the protocol graph walker *)
-SHave ==
-    /\ spc = "haves" /\ c2s # <<>> /\ Head(c2s)[1] = "have"
-    /\ LET r == SrvHave(U_, SStore, cs.wants, cs.mode, st, Head(c2s)[2]) IN
-         /\ st' = r.st /\ s2c' = s2c \o r.out
-    /\ c2s' = Tail(c2s)
-    /\ UNCHANGED <<cs, rstore, cvars, spc, mvars, outcome>>
-
-SDone ==
-    /\ spc = "haves" /\ c2s # <<>> /\ Head(c2s)[1] = "done"
-    /\ c2s' = Tail(c2s)
-    /\ spc' = "mof"
-    /\ \E tg \in (IF cs.inctag THEN TaggedChoices(U_, TagsOf(U_)) ELSE {<<>>}) :
-         LET hs == {st.haves[i] : i \in 1..Len(st.haves)}
-             i  == MofInit(U_, SStore, hs, cs.wants)
-         IN  /\ tagged' = tg
-             /\ todo' = IF Bug = "TaggedAny" /\ cs.inctag
-                        THEN i.todo \cup {<<g, TRUE>> : g \in TagsOf(U_)} ELSE i.todo
-             /\ shaDone' = i.remoteHas /\ remoteHas' = i.remoteHas /\ sent' = {}
-    /\ UNCHANGED <<cs, rstore, cvars, s2c, st, bases, outcome>>
+    /\ cpc' = "tail" /\ spc' = "mof"
+    /\ MofStart({st.haves[i] : i \in 1..Len(st.haves)})
+    /\ UNCHANGED <<cs, rstore, heads, wp, inVain, gotAck, mayRead, s2c, st, bases, outcome>>
 
 (* both sides in one step (object-graph configurations): the walk runs to the end *)
 AtomicNegotiation ==
     /\ AtomicNeg /\ spc = "haves" /\ cpc = "head"
-    /\ LET hs == CompleteWalk(U_, SStore, cs.rh, WalkerInit(Len(cs.U.par)), {}) IN
-       \E tg \in (IF cs.inctag THEN TaggedChoices(U_, TagsOf(U_)) ELSE {<<>>}) :
-         LET i == MofInit(U_, SStore, hs, cs.wants) IN
-         /\ tagged' = tg
-         /\ todo' = IF Bug = "TaggedAny" /\ cs.inctag
-                    THEN i.todo \cup {<<g, TRUE>> : g \in TagsOf(U_)} ELSE i.todo
-         /\ shaDone' = i.remoteHas /\ remoteHas' = i.remoteHas /\ sent' = {}
-         /\ st' = [st EXCEPT !.haves = <<>>]
+    /\ LET hs == CompleteWalk(U_, SStore, cs.rh, WalkerInit(Len(cs.par)), {}) IN
+         /\ MofStart(hs)
+         /\ st' = [st EXCEPT !.haves = SetToSeqLeast(hs)]
     /\ spc' = "mof" /\ cpc' = "tail"
-    /\ UNCHANGED <<cs, rstore, heads, wp, inVain, gotAck, mayRead, c2s, s2c, bases, outcome>>
+    /\ UNCHANGED <<cs, rstore, heads, wp, inVain, gotAck, mayRead, s2c, bases, outcome>>
 
-(* server: list(missing_objects) -- MissingObjectFinder.__next__ until StopIteration *)
+(* server: list(missing_objects) -- MissingObjectFinder.__next__ until StopIteration.          *)
+(* PopAny: one popped entry per step, any entry (set.pop()); otherwise the whole iteration in    *)
+(* one step in the fixed order of MofRun (the PopAny configurations show the order is irrelevant)*)
 SMofStep ==
-    /\ spc = "mof" /\ todo # {}
-    /\ \E e \in (IF PopAny THEN todo ELSE {CHOOSE x \in todo : \A y \in todo :
-                      Rank(x[1]) * 2 + (IF x[2] THEN 1 ELSE 0) <= Rank(y[1]) * 2 + (IF y[2] THEN 1 ELSE 0)}) :
+    /\ PopAny /\ spc = "mof" /\ todo # {}
+    /\ \E e \in todo :
          LET r == MofStep(U_, tagged, todo, shaDone, sent, e) IN
          todo' = r.todo /\ shaDone' = r.shaDone /\ sent' = r.sent
-    /\ UNCHANGED <<cs, rstore, cvars, c2s, s2c, spc, st, tagged, remoteHas, bases, outcome>>
+    /\ UNCHANGED <<cs, rstore, cvars, s2c, spc, st, tagged, remoteHas, bases, outcome>>
+
+SMofAll ==
+    /\ ~PopAny /\ spc = "mof" /\ todo # {}
+    /\ sent' = MofRun(U_, tagged, todo, shaDone, sent)
+    /\ todo' = {} /\ shaDone' = shaDone \cup sent'
+    /\ UNCHANGED <<cs, rstore, cvars, s2c, spc, st, tagged, remoteHas, bases, outcome>>
 
 (* server: handle_done + write the pack; with thin-pack the deltas may use any object of
    remote_has as a base (find_reusable_deltas: base in object_ids or in other_haves) *)
@@ -411,22 +415,19 @@ SPack ==
     /\ \E b \in (IF cs.thin THEN {{}, remoteHas} ELSE {{}}) : bases' = b
     /\ s2c' = s2c \o (IF AtomicNeg THEN <<>> ELSE SrvDone(cs.mode, st)) \o <<<<"PACK">>>>
     /\ spc' = "end"
-    /\ UNCHANGED <<cs, rstore, cvars, c2s, st, tagged, todo, shaDone, sent, remoteHas, outcome>>
+    /\ UNCHANGED <<cs, rstore, cvars, st, tagged, todo, shaDone, sent, remoteHas, outcome>>
 
-(* client: _handle_upload_pack_tail, then the pack is completed and installed *)
+(* client: _handle_upload_pack_tail reads the remaining ACK / NAK lines (walker.ack has no       *)
+(* effect on the result any more), then the pack is completed and installed                      *)
 CTail ==
-    /\ cpc = "tail" /\ s2c # <<>>
-    /\ LET p == Head(s2c) IN
-         /\ s2c' = Tail(s2c)
-         /\ IF p[1] = "PACK"
-            THEN IF bases \subseteq rstore \cup sent
-                 THEN rstore' = rstore \cup sent /\ outcome' = "ok" /\ cpc' = "end"
-                 ELSE outcome' = "unresolved" /\ cpc' = "failed" /\ UNCHANGED rstore
-            ELSE UNCHANGED <<rstore, outcome, cpc>>       \* ACK / NAK lines before the pack
-    /\ UNCHANGED <<cs, heads, wp, inVain, gotAck, mayRead, c2s, spc, st, mvars>>
+    /\ cpc = "tail" /\ s2c # <<>> /\ s2c[Len(s2c)][1] = "PACK"
+    /\ s2c' = <<>>
+    /\ IF bases \subseteq rstore \cup sent
+       THEN rstore' = rstore \cup sent /\ outcome' = "ok" /\ cpc' = "end"
+       ELSE outcome' = "unresolved" /\ cpc' = "failed" /\ UNCHANGED rstore
+    /\ UNCHANGED <<cs, heads, wp, inVain, gotAck, mayRead, spc, st, mvars>>
 
-Next == SWants \/ CSendHave \/ CRead \/ CNoRead \/ CDone \/ SHave \/ SDone \/ AtomicNegotiation
-        \/ SMofStep \/ SPack \/ CTail
+Next == SWants \/ Have \/ CRead \/ CNoRead \/ Done \/ AtomicNegotiation \/ SMofStep \/ SMofAll \/ SPack \/ CTail
 
 Spec == Init /\ [][Next]_vars
 
@@ -438,11 +439,11 @@ AutoTags ==       \* tags the sender may add on its own when include-tag was req
 
 TypeOK ==
     /\ cpc \in {"head", "tail", "end", "failed"}
-    /\ spc \in {"wants", "haves", "mof", "pack", "end", "refused"}
+    /\ spc \in {"wants", "haves", "mof", "end", "refused"}
     /\ outcome \in {"", "ok", "refused", "client_error", "unresolved"}
 
 \* the case is inside the property's antecedent: both stores closed, receiver complete
-Antecedent == Closed(U_, SStore) /\ Closed(U_, RStore0)
+Antecedent == spc = "wants" => (Closed(U_, SStore) /\ Closed(U_, RStore0))
 
 \* after a successful transfer the receiver holds everything reachable from what it asked for,
 \* and is closed again
@@ -450,12 +451,13 @@ ReceiverComplete ==
     outcome = "ok" => /\ WantClosure \subseteq rstore
                       /\ Closure(U_, ReceiverTips(cs.rh, cs.rt) \cup cs.wants) \subseteq rstore
 
-NoLoss == RStore0 \subseteq rstore
+NoLoss == outcome = "ok" => RStore0 \subseteq rstore
 
 \* nothing outside the closure of the wants (apart from auto-followed tags), nothing the
 \* advertised refs do not reach, nothing the sender does not have; checked while the pack is
 \* being assembled, not only at the end
 SenderSound ==
+    sent # {} =>
     /\ sent \subseteq WantClosure \cup AutoTags
     /\ sent \subseteq Closure(U_, SRefs)
     /\ sent \subseteq SStore
@@ -471,10 +473,8 @@ ThinResolvable == outcome # "unresolved"
 \* the closed form used for judging real transfers
 Confluent ==
     (spc = "end" /\ ~(Bug = "TaggedAny")) =>
-        sent = MofSent(U_, SStore, {st.haves[i] : i \in 1..Len(st.haves)} \cup
-                           (IF AtomicNeg THEN CompleteWalk(U_, SStore, cs.rh, WalkerInit(Len(cs.U.par)), {}) ELSE {}),
-                       cs.wants, tagged)
+        sent = MofSent(U_, SStore, {st.haves[i] : i \in 1..Len(st.haves)}, cs.wants, tagged)
 
 \* the server only ever counts as common what the receiver really has (so remote_has is sound)
-HavesSound == \A i \in 1..Len(st.haves) : st.haves[i] \in RStore0 \cap SStore
+HavesSound == spc \in {"mof", "end"} => \A i \in 1..Len(st.haves) : st.haves[i] \in RStore0 \cap SStore
 =============================================================================
